@@ -537,10 +537,11 @@ func (w *world) unindexedTag(s, shard int) string {
 	case twin:
 		return ":recreated-series-dropped-from-index"
 	}
-	// NOTE: the same state (data of a series the shard index does not list) was also seen once with a single client on
-	// the unchanged tree (findings/C17-O1-...), i.e. not only through the race C17-F1 describes; it could not be triaged
-	// within the session, so the signature stays one and the same (a seeded change with this symptom, mut6-C17, is
-	// therefore reported as the known finding).
+	if w.nclients <= 1 {
+		// Known finding C17-F1 is a RACE between a delete that empties a measurement and a concurrent first write of a
+		// series into it. With one client there is no such race: data the index does not list is something else.
+		return ":data-without-index-entry:single-client"
+	}
 	return ":series-not-in-index"
 }
 
